@@ -86,8 +86,36 @@ def gen(seed, count):
     return tasks
 
 
+def systematic(n=3):
+    """Every multigraph DAG shape on n nodes x every back edge (self-loops and edges to an ancestor, of
+    every kind the target admits), without registry and with every call registered."""
+    tasks = []
+    for scn in S.small_shapes(n):
+        anc = S.ancestors(scn)
+        kind_of = {x["id"]: x["kind"] for x in scn["nodes"]}
+        calls = S.call_ids(scn)
+        needed = set()
+        for o in S.output_nodes(scn.get("output")):
+            needed |= {o} | anc[o]
+        for src in S.node_ids(scn):
+            for dst in sorted(anc[src] | {src}):
+                for kind in (("dep",) if kind_of[dst] == "lit" else ("dep", "pos", "kw")):
+                    for reg in ([], calls):
+                        must = bool(reg) or ({src, dst} <= needed)
+                        tasks.append({"scn": scn, "back": [src, dst, kind], "registry": reg, "W": 2, "sched": None, "must": must, "dry_run": False})
+    return tasks
+
+
 def run(res, tier, seed):
     tasks = gen(seed, 400 if tier == "quick" else 6000)
+    sysl = systematic(3)
+    res.coverage["systematic_cyclic_plans_total"] = len(sysl)
+    if tier == "quick":
+        rng = random.Random(f"cycsys-{seed}")
+        keep = [t for t in sysl if t["back"][0] == t["back"][1]]  # every self-loop
+        rest = [t for t in sysl if t["back"][0] != t["back"][1]]
+        sysl = keep + rng.sample(rest, min(len(rest), 1500))
+    tasks += sysl
     outs = common.pmap(_one, tasks)
     n_must = 0
     for t, o in zip(tasks, outs):
